@@ -139,10 +139,16 @@ class Abs:
                     return TypeEnv.elem_type(self._typed(fn, b.iter, depth + 1))
             if isinstance(e, ast.Name):
                 d = self._single_def(fn, e.id)
-                if isinstance(d, (ast.ListComp, ast.IfExp)):
+                if isinstance(d, (ast.ListComp, ast.IfExp)) or (
+                        isinstance(d, ast.Call) and isinstance(d.func, ast.Name) and d.func.id in ('deepcopy', 'copy')):
                     return self._typed(fn, d, depth + 1)
             if isinstance(e, ast.ListComp):
                 return ('list', self._typed(fn, e.elt, depth + 1))
+            if isinstance(e, ast.IfExp):
+                return union([self._typed(fn, e.body, depth + 1), self._typed(fn, e.orelse, depth + 1)])
+            if isinstance(e, ast.Call) and isinstance(e.func, ast.Name) and e.func.id in ('deepcopy', 'copy') \
+                    and len(e.args) == 1:
+                return self._typed(fn, e.args[0], depth + 1)
         if isinstance(e, ast.Call):
             for hook in self.call_type_hooks:
                 t = hook(fn, e)
